@@ -2,8 +2,8 @@
 # tools/seedeval.sh <PROP> <n> [tier]  - confirm a seeded change (/tmp/seed-<PROP>/<n>) in its scratch worktree, store it under
 # seeded/<PROP>-<n>/, then apply it to /repo, run the property's check, and undo it straight afterwards.
 cd "$(dirname "$0")/.."
-P=$1; N=$2; TIER=${3:-quick}
-S=/tmp/seed-$P/$N; W=/tmp/wt-$P; D=seeded/$P-$N
+P=$1; N=$2; TIER=${3:-quick}; R=${4:-1}
+if [ "$R" = "1" ]; then S=/tmp/seed-$P/$N; W=/tmp/wt-$P; D=seeded/$P-$N; else S=/tmp/seed$R-$P/$N; W=/tmp/wt$R-$P; D=seeded/$P-r$R-$N; fi
 [ -f $S/patch.diff ] || { echo "no $S/patch.diff"; exit 2; }
 mkdir -p $D; cp $S/patch.diff $S/demo.py $D/; [ -f $S/notes.txt ] && cp $S/notes.txt $D/
 git -C $W checkout -q -- . ; 
